@@ -7,6 +7,9 @@ sys.path.insert(0, V)
 from props import PROPS, NOT_APPLICABLE
 
 ids = [json.loads(l)["id"] for l in open(os.path.join(V, "properties.jsonl"))]
+# only checks listed in READY (reviewed, silent on the unchanged tree) are claimed
+ready = set(open(os.path.join(V, "READY")).read().split())
+PROPS = {k: v for k, v in PROPS.items() if k in ready}
 hook_commits = subprocess.run(["git", "-C", "/repo", "log", "--format=%H", "--grep=^verif hooks"],
                               capture_output=True, text=True).stdout.split()
 checks = []
